@@ -195,6 +195,11 @@ func runCheck(o *checkOpts) int {
 	evPath := filepath.Join(o.evidenceDir, o.property+".json")
 	os.MkdirAll(filepath.Dir(evPath), 0o755)
 	os.Remove(evPath)
+	if old, _ := filepath.Glob(filepath.Join(o.evidenceDir, "replay", o.property+"-*")); old != nil {
+		for _, f := range old {
+			os.Remove(f)
+		}
+	}
 	toolErr := func(format string, a ...any) int {
 		msg := fmt.Sprintf(format, a...)
 		fmt.Fprintln(os.Stderr, "TOOL-ERROR:", msg)
@@ -497,7 +502,7 @@ func (e *Engine) lemmaObligations(names []string) (*Ctx, error) {
 			return nil, fmt.Errorf("lemma %q not found", n)
 		}
 		env := &SpecEnv{f: f, vars: map[string]sval{}, st: st, old: st, reach: "true"}
-		g, err := env.evalBool(found.E)
+		g, err := env.evalGoal(found.E)
 		if err != nil {
 			return nil, fmt.Errorf("lemma %s: %v", n, err)
 		}
